@@ -181,3 +181,85 @@ def c18(p, tier, replay):
 def prebuild():
     """used by bin/setup: generate sources for the quick tier and build all harness binaries"""
     family_build("quick", list(MODELS))
+
+# ------------------------------------------------------------------------------------------------
+# C12: schemas are faithful (impl -> spec trace validation with SchemaTrace.tla)
+# ------------------------------------------------------------------------------------------------
+def c12_requests(tier, built):
+    """groups TLC's behaviours by (writer type, version): the observations the harness must record"""
+    groups = collections.OrderedDict()
+    def add(t, ver, v):
+        k = (json.dumps(t, sort_keys=True), ver)
+        g = groups.setdefault(k, {"t": t, "ver": ver, "vs": [], "seen": set()})
+        vk = json.dumps(v, sort_keys=True)
+        if vk not in g["seen"] and len(g["vs"]) < 12:
+            g["seen"].add(vk)
+            g["vs"].append(v)
+    for line in open(built["wire"][0]):
+        r = json.loads(line)
+        add(r["t"], r["ver"], r["v"])
+    for line in open(built["evo"][0]):
+        r = json.loads(line)
+        add(r["ts"][0] if r["mode"] == "up" else r["ts"][1], r["i"], r["v"])
+    return groups
+
+@prop("C12")
+def c12(p, tier, replay):
+    v = Verdict(p, tier)
+    built, binp = family_build(tier, ["wire", "evo"])
+    req = os.path.join(WORK, "c12_%s.req" % tier)
+    if replay:
+        rec = json.load(open(replay))["record"]
+        open(req, "w").write(json.dumps({"t": rec["t"], "ver": rec["ver"], "vs": [c["v"] for c in rec["cases"]]}) + "\n")
+    else:
+        groups = c12_requests(tier, built)
+        with open(req, "w") as o:
+            for g in groups.values():
+                o.write(json.dumps({"t": g["t"], "ver": g["ver"], "vs": g["vs"]}) + "\n")
+    obs = os.path.join(WORK, "c12_%s.obs" % tier)
+    vlib.run_bin(binp, ["schemas", req, obs])
+    observations = []
+    for line in open(obs):
+        o = json.loads(line)
+        if "tool_error" in o:
+            raise ToolError("harness: " + o["tool_error"])
+        observations.append(o)
+    # a schema() that panics / errors is itself a violation (no observation to validate)
+    clean = os.path.join(WORK, "c12_%s.clean.obs" % tier)
+    idx = []
+    with open(clean, "w") as out:
+        for i, o in enumerate(observations):
+            if "schema_error" in o:
+                v.report("c12.schema_panics", {"t": o["t"], "ver": o["ver"]}, "%s v%d :: %s" % (vlib.show(o["t"]), o["ver"], o["schema_error"]), o)
+            else:
+                out.write(json.dumps(o) + "\n")
+                idx.append(i)
+    r = vlib.run_tlc("SchemaTrace.tla", "SchemaTrace.cfg", "schematrace_" + tier, workers=8, timeout=3000,
+                     extra_env={"OBS": clean}, java_opts="-Xss1g -Xmx12g")
+    if r["violated"]:
+        raise ToolError("SchemaTrace: unexpected TLC error (see %s)" % r["out"])
+    rej = os.path.join(WORK, "c12_%s.rej" % tier)
+    vlib.printed_json(r["out"], rej)
+    nrej = 0
+    for line in open(rej):
+        j = json.loads(line)
+        o = observations[idx[j["i"] - 1]]
+        nrej += 1
+        why = "; ".join(sorted(set(b["why"] for b in j["bad"])))
+        v.report("c12.trace_rejected", {"t": o["t"], "ver": o["ver"]},
+                 "%s v%d :: %s" % (vlib.show(o["t"]), o["ver"], why), o)
+    ncases = sum(len(o.get("cases", [])) for o in observations)
+    samples = [{"type": vlib.show(o["t"]), "ver": o["ver"], "real_schema": o["schema"], "first_case": o["cases"][:1]}
+               for o in observations if "schema" in o and len(o["cases"]) > 0 and o["t"]["k"] in ("struct", "enum")][:2]
+    cov = {"states": r["stats"]["distinct"], "transitions": r["stats"]["generated"],
+           "traces_validated_against_impl": len(idx) - nrej,
+           "evaluations": ncases, "distinct_nontrivial": len([o for o in observations if o.get("cases") and any(len(c["bytes"]) > 0 for c in o["cases"])]),
+           "rule": "one observation per (type definition, data version) that occurs as a writer in the Wire and Evo models, with up to 12 values each; non-trivial = at least one value encodes to >= 1 byte",
+           "observations": len(observations), "rejected": nrej, "samples": samples, "exhaustive": not replay,
+           "explanation": "every observation (REAL schema, REAL bytes) recorded from the implementation is validated by TLC against "
+                          "spec/SchemaTrace.tla: the schema-driven generic reader must consume all bytes and recover the token stream "
+                          "(widths, lengths, tags, order) that spec/Schema.tla!TokensOf gives for the value"}
+    return v.finish("model_checking", cov, [
+        "bounded universe: writer types / versions / values of the Wire and Evo models",
+        "enum reading rule: 1-byte tags select the variant whose schema discriminant equals the tag, wider tags select by position",
+        "grouping by struct / tuple / array is not part of the compared structure (only order, widths, lengths, tags)"])
